@@ -161,6 +161,13 @@ func judge(c *Case, wr *worldRun, rc *refCache, stateChecks bool, attrib bool) [
 					add("output-differs:"+where, "result differs from the same call alone on a fresh Model: "+d)
 				}
 			}
+			if stateChecks && res.Kind == "ok" && res.OutLate != nil {
+				// A tensor handed back by Run belongs to the caller; unless the caller itself passed it to a later call
+				// that is allowed to... no call is allowed to modify it: later Runs must leave it alone.
+				if ok, d := equalOuts(res.Out, res.OutLate); !ok {
+					add("returned-output-changed-later:"+gi.mainOp, "an output tensor returned by this call no longer holds what it held when it was returned, after later calls ran: "+d)
+				}
+			}
 			if stateChecks {
 				for _, name := range sortedKeys(res.InBefore) {
 					if !val.Equal(res.InBefore[name], res.InAfter[name]) {
